@@ -257,6 +257,20 @@ fn run_scenario(sc: &Value, tr: &mut Trace, stats: &mut Stats) {
         }
     }
 
+    // interleaved once more on a UNIX-epoch time base (the property speaks of report times, not of
+    // their origin: 1.7e9 s + t must decode like t; judged by the property on its own, not compared
+    // with the run above, since a float tie at a window edge may legitimately fall either way)
+    let epoch_s: f64 = 1.7e9 + ((id * 7919).rem_euclid(100_000)) as f64;
+    let mut epo = fresh.clone();
+    let mut epo_ok = vec![true; reports.len()];
+    {
+        let mut aircraft: BTreeMap<ICAO, AircraftState> = BTreeMap::new();
+        let mut reference = reference0;
+        for (k, r) in reports.iter().enumerate() {
+            epo_ok[k] = step(&mut epo[k], epoch_s + r.ts_ms as f64 / 1000.0, &mut aircraft, &mut reference);
+        }
+    }
+
     // batch API
     let mut timed: Vec<TimedMessage> = reports.iter().enumerate().map(|(k, r)| TimedMessage {
         timestamp: r.ts_ms as f64 / 1000.0,
@@ -310,6 +324,7 @@ fn run_scenario(sc: &Value, tr: &mut Trace, stats: &mut Stats) {
             "inter": out(inter_ok[k], &inter[k]),
             "iso": out(iso_ok[k], &iso[k]),
             "batch": out(batch_ok, &timed[k].message),
+            "epoch": out(epo_ok[k], &epo[k]),
         }));
     }
 }
